@@ -696,7 +696,15 @@ pub fn c15_units(_seed: u64) -> Vec<Unit> {
         out.push(Unit {
             id: String::new(),
             class: format!("no_std:{}", tag.split(':').next().unwrap_or("")),
-            features: feats(&["serde", "arbitrary"]),
+            // the smallest feature set the unit needs: `arbitrary` links std into the crate graph, which
+            // would let std-only inherent methods resolve, so only units deriving Arbitrary get it
+            features: if d.has(Tr::Arbitrary) {
+                feats(&["serde", "arbitrary"])
+            } else if d.has(Tr::Serialize) || d.has(Tr::Deserialize) {
+                feats(&["serde"])
+            } else {
+                feats(&[])
+            },
             source: unit_source(&d, true, ""),
             expect: Expect::Accept,
             expect_errors: vec![],
